@@ -135,6 +135,8 @@ def enc_expr(e):
         return "(. %s %s)" % (enc_expr(e[1]), enc_str(e[2]))
     if t == "[]":
         return "([] %s %s)" % (enc_expr(e[1]), enc_expr(e[2]))
+    if t == ".i":          # dotted integer subscript  x.0  (the same node as x[0], another spelling)
+        return "([] %s (C (i %d)))" % (enc_expr(e[1]), e[2])
     if t == "sl":
         return "(sl %s %s)" % (enc_expr(e[1]), " ".join("_" if x is None else enc_expr(x) for x in e[2:5]))
     if t in "LT":
@@ -363,6 +365,9 @@ def to_src(e):
         return p(e[1]) + "." + e[2]
     if t == "[]":
         return p(e[1]) + "[" + to_src(e[2]) + "]"
+    if t == ".i":
+        base = to_src(e[1]) if e[1][0] in ("N", ".i", ".") else p(e[1])
+        return base + "." + str(e[2])
     if t == "sl":
         lo, hi, st = e[2:5]
         s = ("" if lo is None else to_src(lo)) + ":" + ("" if hi is None else to_src(hi))
@@ -614,6 +619,8 @@ def make_data(rng, log):
         "t0": rng.choice([(1, 2), (), ("a",)]),
         "d0": rng.choice([{"a": 1, "k": "<v>"}, {1: "one", "a": "x"}, {}]),
         "o1": o1, "o2": o2,
+        # nested sequences with long rows: g0[r][c] == 100 * r + c, rows of 12 / 25 / 31 / 3 items
+        "g0": [[100 * r + c for c in range(n)] for r, n in enumerate((12, 25, 31, 3))],
         "f1": Fn(1, log), "f2": Fn(2, log), "f0": Fn(0, log),
     }
 
@@ -696,6 +703,10 @@ class EGen:
             if k == 3:
                 return ("B", "add", g("str"), g("str"))
             if k == 4:
+                if r.random() < 0.3:     # printf-style formatting with constant / variable operands (opaque to the model's value)
+                    fmt = r.choice([("%s", 1), ("a%sb", 1), ("%s-%s", 2), ("%d", 1), ("<%s>", 1)])
+                    arg = g(r.choice(["int", "str"])) if fmt[1] == 1 else ("T", [g("int"), g("str")])
+                    return ("B", "mod", ("C", fmt[0]) if r.random() < 0.8 else ("F", ("C", fmt[0]), "safe", []), arg)
                 return ("B", "mul", g("str"), ("C", r.choice([0, 1, 2, 3])))
             if k == 5 and self.filters:
                 return ("F", g("str"), r.choice(["upper", "lower", "string", "safe", "escape", "e"]), [])
@@ -783,7 +794,13 @@ class EGen:
                    else ("F", ("C", name), "string", []))
             return ("[]", base, key)
         if k == 2:
-            return ("[]", base, ("C", r.choice([0, 1, 5])))
+            if r.random() < 0.5:
+                # chains of dotted integer subscripts on nested sequences: x.A.B with one and two digit indexes
+                a = r.choice([0, 1, 2, 3])
+                b = r.choice([0, 1, 2, 5, 10, 11, 20, 24, 30, 100])
+                e1 = (".i", ("N", "g0"), a) if r.random() < 0.8 else ("[]", ("N", "g0"), ("C", a))
+                return (".i", e1, b) if r.random() < 0.8 else ("[]", e1, ("C", b))
+            return (".i", base, r.choice([0, 1, 5, 10])) if r.random() < 0.3 else ("[]", base, ("C", r.choice([0, 1, 5])))
         return (".", (".", base, "b"), name)
 
 
@@ -803,7 +820,7 @@ def size(e):
     return n
 
 
-ALL_TAGS = {"C", "N", "B", "U", "!", "&", "|", "~", "cmp", "?", ".", "[]", "sl", "L", "T", "D", "call", "F", "is"}
+ALL_TAGS = {"C", "N", "B", "U", "!", "&", "|", "~", "cmp", "?", ".", ".i", "[]", "sl", "L", "T", "D", "call", "F", "is"}
 
 
 def kinds(e, acc=None):
